@@ -264,6 +264,29 @@ distinct = distinct query lines."
         }
         tree_case(w, &a, &b, &z, i % 4 != 3, "wide");
     }
+    // 5b. ANCESTOR KEYS: `d` on one replica, `d/x`, `d/y/z` on the other (a file replaced by a directory or the reverse), with and
+    // without a base that knows either shape. The decision for a path is the table's, whatever OTHER paths exist (seed C18-K: a key
+    // that is a component-wise ancestor of the next key turned both into conflicts without consulting the table).
+    for v in 0..(if thorough { 64 } else { 24 }) {
+        let (mut a, mut b, mut z) = (FpMap::new(), FpMap::new(), FpMap::new());
+        let top = ["d", "notes", "a b", "k.x"][v % 4];
+        let below = [format!("{top}/x"), format!("{top}/y/z"), format!("{top}/.h")];
+        let file_side_a = v % 2 == 0;
+        {
+            let (fs_, ds_) = if file_side_a { (&mut a, &mut b) } else { (&mut b, &mut a) };
+            fs_.insert(PathBuf::from(top), mk(1, 0));
+            for (k, p_) in below.iter().enumerate() { if (v >> 2) % 4 != k { ds_.insert(PathBuf::from(p_), mk(2 + k as u8, 0)); } }
+        }
+        match (v >> 4) % 4 {
+            0 => {}
+            1 => { z.insert(PathBuf::from(top), mk(1, 0)); }
+            2 => { for (k, p_) in below.iter().enumerate() { z.insert(PathBuf::from(p_), mk(2 + k as u8, 0)); } }
+            _ => { z.insert(PathBuf::from(top), mk(9, 0)); z.insert(PathBuf::from(&below[0]), mk(2, 0)); }
+        }
+        a.insert(PathBuf::from("zz-other"), mk(5, 0));
+        b.insert(PathBuf::from("zz-other"), mk(6, 0));
+        tree_case(w, &a, &b, &z, (v >> 4) % 4 != 0, "ancestor-keys");
+    }
     // 6. RUN BOUNDARIES: the chained key list keys(A) ++ keys(B), sorted, holds a path present on both sides twice, side by side.
     // c - 1 (± 1) one-sided paths that sort first push the two copies of the first common path onto positions c - 1 and c for
     // c a power of two — where an implementation that cuts the sorted list into runs (parallel chunks, merge passes) and removes
